@@ -90,6 +90,8 @@ func (e *Enc) reset() {
 	e.curB = nil
 	e.backOrd = map[*ssa.BasicBlock]int{}
 	e.axiomMemo = map[string]bool{}
+	e.atOrd = map[string]int{}
+	e.atOrdPat = map[string]int{}
 	if e.famSorts == nil {
 		e.famSorts = map[string]string{}
 	}
@@ -130,6 +132,13 @@ func (e *Enc) Encode() (err error) {
 		li.writes = disc[li.header]
 	}
 	e.encodeBody()
+	if e.fc != nil {
+		for _, ac := range e.fc.AtCalls {
+			if !ac.Used {
+				return fmt.Errorf("%s: `at call %s#%d` binds to no call site", e.fnLabel, ac.Callee, ac.Ord)
+			}
+		}
+	}
 	return nil
 }
 
